@@ -34,7 +34,6 @@ import (
 	"github.com/gnolang/gno/gno.land/pkg/sdk/vm"
 	"github.com/gnolang/gno/gnovm/pkg/gnolang"
 	abci "github.com/gnolang/gno/tm2/pkg/bft/abci/types"
-	"github.com/gnolang/gno/tm2/pkg/db/memdb"
 	"github.com/gnolang/gno/tm2/pkg/std"
 	"verif/engine/chainx"
 	"verif/engine/vk"
@@ -367,7 +366,7 @@ var (
 )
 
 func newWorld(cfg cfgDef) *world {
-	c, err := chainx.New(memdb.NewMemDB(), spec(cfg))
+	c, err := chainx.New(chainx.NewMemPebble(), spec(cfg))
 	if err != nil {
 		r.HarnessError("chain init: %v", err)
 	}
